@@ -281,7 +281,7 @@ func Explore(scn *Scenario, o ExploreOpts) *Stats {
 		go func() {
 			defer wg.Done()
 			cmd := exec.Command(os.Args[0])
-			cmd.Env = append(os.Environ(), "VRT_WORKER=1", fmt.Sprintf("VRT_DEADLINE=%d", o.Deadline.Unix()), fmt.Sprintf("VRT_RECHECK=%d", o.Recheck), "GOMAXPROCS=1", "GOGC="+envOr("VRT_WORKER_GOGC", "400"), "GODEBUG="+envOr("VRT_WORKER_GODEBUG", ""))
+			cmd.Env = append(os.Environ(), "VRT_WORKER=1", fmt.Sprintf("VRT_DEADLINE=%d", o.Deadline.Unix()), fmt.Sprintf("VRT_RECHECK=%d", o.Recheck), fmt.Sprintf("VRT_MAXVIOL=%d", o.MaxViol), "GOMAXPROCS=1", "GOGC="+envOr("VRT_WORKER_GOGC", "400"), "GODEBUG="+envOr("VRT_WORKER_GODEBUG", ""))
 			cmd.Stderr = os.Stderr
 			in, _ := cmd.StdinPipe()
 			out, _ := cmd.StdoutPipe()
@@ -395,6 +395,11 @@ func ServeWorker(scenarios func(name string) *Scenario) {
 	}
 	recheck := 97
 	fmt.Sscanf(os.Getenv("VRT_RECHECK"), "%d", &recheck)
+	maxViol := 3
+	fmt.Sscanf(os.Getenv("VRT_MAXVIOL"), "%d", &maxViol)
+	if maxViol <= 0 {
+		maxViol = 3
+	}
 	rd := bufio.NewReaderSize(os.Stdin, 1<<20)
 	// results go to the original stdout; anything the code under test prints
 	// to os.Stdout afterwards is discarded so it cannot corrupt the protocol
@@ -417,7 +422,7 @@ func ServeWorker(scenarios func(name string) *Scenario) {
 			fmt.Fprintf(os.Stderr, "worker: unknown scenario %q\n", it.Scn)
 			os.Exit(2)
 		}
-		e := &explorer{scn: scn, deadline: dl, recheck: recheck, maxViol: 3}
+		e := &explorer{scn: scn, deadline: dl, recheck: recheck, maxViol: maxViol}
 		OnStuck = func(reason string, choices []int) {
 			e.stats.Violations = append(e.stats.Violations, Violation{Scenario: scn.Name, Prefix: choices, Msg: reason + "\n(the schedule prefix reaches the point where the code stopped responding)", Outcome: "stuck"})
 			e.stats.Fatal = true
@@ -457,7 +462,7 @@ func ExploreMany(scns []*Scenario, o ExploreOpts) ([]*Stats, string) {
 		go func() {
 			defer wg.Done()
 			cmd := exec.Command(os.Args[0])
-			cmd.Env = append(os.Environ(), "VRT_WORKER=1", fmt.Sprintf("VRT_DEADLINE=%d", o.Deadline.Unix()), fmt.Sprintf("VRT_RECHECK=%d", o.Recheck), "GOMAXPROCS=1", "GOGC="+envOr("VRT_WORKER_GOGC", "400"), "GODEBUG="+envOr("VRT_WORKER_GODEBUG", ""))
+			cmd.Env = append(os.Environ(), "VRT_WORKER=1", fmt.Sprintf("VRT_DEADLINE=%d", o.Deadline.Unix()), fmt.Sprintf("VRT_RECHECK=%d", o.Recheck), fmt.Sprintf("VRT_MAXVIOL=%d", o.MaxViol), "GOMAXPROCS=1", "GOGC="+envOr("VRT_WORKER_GOGC", "400"), "GODEBUG="+envOr("VRT_WORKER_GODEBUG", ""))
 			cmd.Stderr = os.Stderr
 			in, _ := cmd.StdinPipe()
 			outp, _ := cmd.StdoutPipe()
